@@ -85,10 +85,19 @@ STATIC = {'known': {'fa': 'pqr', 'sub.fb': 'pq', 'm1.K': 'pq', 'cons': 'xy'},
           'unknown': ['unk', 'pkg.unk2', 'Unk3'],
           'header': []}
 DYN = {'known': {'dm.fa': 'pqr', 'dm.K': 'pq', 'c15dyn.other.gb': 'pq', 'dm.cons': 'xy'},
-       'unknown': ['dm.unk', 'nomod.fn', 'c15dyn.other.Unk3'],
+       'unknown': ['dm.unk', 'nomod.fn', 'c15dyn.other.Unk3', 'am.fn'],
        'header': ['from __gin__ import dynamic_registration', 'import c15dyn.mod as dm',
                   'import c15dyn.other']}
+# A file parsed *before* the file under test (dynamic mode only): it imports another package under
+# the name `am` and configures am.fn, which registers it globally.  The file under test does not
+# import it, so there `am.fn` is an unknown name ("known = resolvable through the file's own
+# imports, independent of what was parsed before").
+PRELUDE = ('from __gin__ import dynamic_registration\nimport c15alt.mod as am\n'
+           'am.fn.p = 1\nam.cons2.x = @am.fn()\n')
 DYN_SOURCES = {
+    'c15alt/__init__.py': '',
+    'c15alt/mod.py': ('def fn(p=None, q=None):\n  return (p, q)\n\n'
+                      'def cons2(x=None):\n  return x\n'),
     'c15dyn/__init__.py': '',
     'c15dyn/mod.py': ('def fa(p=None, q=None, r=None):\n  return (p, q, r)\n\n'
                       'class K:\n  def __init__(self, p=None, q=None):\n    self.p, self.q = p, q\n\n'
@@ -281,6 +290,10 @@ def _check(case, nm, skip, labels):
 
   text = render(stmts, nm['header'], case['tape'])
   gin.clear_config()
+  prelude = case.get('prelude') and case['mode'] == 'dynamic'
+  if prelude:
+    gin.parse_config(PRELUDE)
+    labels.add('prelude-registered-am.fn')
   try:
     with warnings.catch_warnings():
       warnings.simplefilter('ignore')
@@ -340,6 +353,8 @@ def _check(case, nm, skip, labels):
 
   # ---- reference side: the reduced text, no skip_unknown ----------------------------------
   gin.clear_config()
+  if prelude:
+    gin.parse_config(PRELUDE)
   ref_text = render(reduced, nm['header'], case['tape'])
   try:
     with warnings.catch_warnings():
@@ -365,8 +380,9 @@ def _check(case, nm, skip, labels):
 def _values_nomacro(refnames, depth, lit):
   leaf = st.one_of(
       lit.map(lambda t: ['lit', t]),
-      st.tuples(st.sampled_from(['', '', 's']), st.sampled_from(refnames), st.booleans()).map(
-          lambda t: ['ref', (t[0] + '/' if t[0] else '') + t[1], t[2]]))
+      st.tuples(st.sampled_from(['', '', 's', 's/t', 'a/b/c']), st.sampled_from(refnames),
+                st.booleans()).map(
+                    lambda t: ['ref', (t[0] + '/' if t[0] else '') + t[1], t[2]]))
   if depth <= 0:
     return leaf
   sub = _values_nomacro(refnames, depth - 1, lit)
@@ -396,7 +412,7 @@ def strategy(draw):
 
   def value(depth=1):
     if with_macros:
-      return S.values(refnames, ['M', 'N'], ['', 's'], depth=depth, lit=lit)
+      return S.values(refnames, ['M', 'N'], ['', 's', 's/t', 'a/b/c'], depth=depth, lit=lit)
     return _values_nomacro(refnames, depth, lit)
 
   stmts = []
@@ -413,7 +429,7 @@ def strategy(draw):
       # that the chosen skip_unknown covers (when it covers any)
       cov = unknown if kind == 'true' else [u for u in listed if u in unknown]
       u = draw(st.sampled_from(cov or unknown))
-      ref = ['ref', draw(st.sampled_from(['', 's/'])) + u, draw(st.booleans())]
+      ref = ['ref', draw(st.sampled_from(['', 's/', 's/t/'])) + u, draw(st.booleans())]
       v = draw(st.sampled_from([ref, ['list', [['lit', '1'], ref]],
                                 ['dict', [[['lit', "'k'"], ['tuple', [ref]]]]]]))
       if draw(st.integers(0, 3)) == 0:
@@ -458,4 +474,5 @@ def strategy(draw):
       s[3] = no_known_calls(s[3])
     elif s[0] == 'block':
       s[3] = [[a, no_known_calls(v)] for a, v in s[3]]
-  return {'mode': mode, 'skip': [kind, listed], 'stmts': stmts, 'tape': draw(S.tapes(10))}
+  return {'mode': mode, 'skip': [kind, listed], 'stmts': stmts, 'tape': draw(S.tapes(10)),
+          'prelude': draw(st.booleans())}
